@@ -161,6 +161,26 @@ CHECKS = {
                 note="A script line that itself parses as a record is in-band signalling by design (thorough scenario). Graph and line shapes as listed."),
 }
 
+# additions of the seventh round (appended to the texts above)
+MORE = {
+    "C01": " World shared-src: two targets that share a source and are asked for in separate runs.",
+    "C02": " World shared-src: two targets that share a source and are asked for in separate runs.",
+    "C07": " Also a target whose script goes on without a failing dependency and that two jobs ask for (once per run).",
+    "C08": " Also a make -jN in the MIDDLE of a build (shim/rvmake, run by a build script: a token pipe of its own, an extra recipe that takes a handed-back token and is a scheduled process): the middle make and the redo above it both end with their own token counts; and a failing build under a make parent after a sub-redo left on a borrowed slot. For a redo parent one cheat byte next to one token too many is a settled account; for a make parent every token counts.",
+    "C09": " Also (outside the scheduler, watchdog 90 s) redo -j2 with a slow first target and 220 further targets with long names: 64 KiB of redo's own records on the pipe to the log viewer must not stop the build; and a sub-redo that comes back from another invocation's lock at -j1 while the redo above it only waits for its children.",
+    "C11": " Also names with a trailing separator (u.x/, u.x/.) for a user's file and for a generated one, and a user's directory that is moved away and replaced by a user's regular file under a name whose rule produces a file.",
+    "C12": " Also two members of a cycle named by one command and asked for by one script in a single redo-ifchange (-j1).",
+    "C13": " Also histories with the state directory one level below the top (candidates above the project base), and arguments that name no file or that no target can be called ('/', '/..', '.', 'a/..', a newline, not UTF-8; commands that would make the file-system root their project run in a chroot jail): nobody aborts. $3 is judged as 'beside the target, ending in the suffix this binary uses' (learned from the subject).",
+    "C14": " Also the watched path asked for by itself (fails while absent: the failed mark must not make the watcher rebuild), and a watched path below a regular file that the user may replace by a directory.",
+    "C16": " Also redo of an existing file that redo has never heard of, next to a build.",
+    "C17": " The quick tier includes the ifcreate world (a name known only as 'must not exist', then created).",
+    "C18": " Also a partial line in front of each of two nested builds and an unterminated line right after a nested build (both must stay with the script that wrote them: oracle key 'attributed'), and a record-like line whose text contains a NUL byte.",
+    "C04": " The name of the temporary file is learned from the subject (a tree that calls it something else raises no alarm).",
+    "C10": " The name of the temporary file is learned from the subject.",
+}
+for _k, _v in MORE.items():
+    CHECKS[_k]["text"] += _v
+
 NOT_YET = "check not built yet in this session (work in progress; see DESIGN.md §4 for the planned bounded exhaustive check)"
 
 checks = []
